@@ -233,6 +233,9 @@ impl World for WorldI {
                 _ => IOp::Resubmit { k: rng.below(64) as u16 },
             };
             ops.push(op);
+            if rng.chance(1, 12) {
+                ops.push(IOp::Advance { dseq: *rng.pick(&[1u32, 17, 100, 20_000]) });
+            }
         }
         (cfg, ops)
     }
@@ -260,7 +263,7 @@ impl World for WorldI {
             };
             ctx.trace_str(eff.kind());
             run_op(&mut ex, ctx, &eff);
-            if !matches!(op, IOp::Resubmit { .. }) {
+            if !matches!(op, IOp::Resubmit { .. } | IOp::Advance { .. }) {
                 ex.history.push(op.clone());
             }
             if !ctx.stopped() {
@@ -369,6 +372,7 @@ pub fn run_op(ex: &mut IExec, ctx: &mut Ctx, op: &IOp) {
         IOp::Inbound { msg_id, origin, body, dev, abort } => ex.do_inbound(ctx, *msg_id, *origin, body, dev, *abort),
         IOp::MinterMint { tok, who, to, amount } => ex.do_minter_mint(ctx, tok, *who, *to, *amount),
         IOp::TransferOwnership { to, auth, abort } => ex.do_transfer_ownership(ctx, *to, *auth, *abort),
+        IOp::Advance { dseq } => crate::common::advance_ledgers(&ex.sim, ctx, *dseq),
         IOp::Resubmit { .. } => {}
     }
 }
